@@ -13,9 +13,10 @@ import numpy as np
 from vk.rtc.harness import run_cases
 from vk.specs import opalg as A
 
-LEVEL = "exploration"
+LEVEL = "other"
 TECHNIQUE = ("contracts evaluated at run time on the real functions over bounded-exhaustive inputs: all expressions of depth <= 3 "
-             "of the operator grammar compared with an exact (integer/dyadic) matrix denotation (bounded stand-in; nothing counted as proved)")
+             "of the operator grammar compared with an exact (integer/dyadic) matrix denotation (bounded stand-in); Engine S: the real Op/OpSum "
+             "arithmetic executed on indeterminate factors, denotation identities decided exactly (all factor values per expression shape)")
 
 K = 8            # generous constant in K*eps*scale per floating-point rounding (one rounding is <= ~3 eps for a complex product)
 SETUP = ("from renormalizer.model import Op, OpSum; import numpy as np; evaluate `expr`; compare vk.specs.opalg.Universe.den(result) "
@@ -1032,6 +1033,8 @@ def check(run):
     order = {"expr": 0, "simplify_lists": 1, "terms": 2, "strings": 0, "nary": 0}
     cases.sort(key=lambda c: order.get(c[0], 3))
     run_cases(run, worker, cases, procs=None)
+    from props import C15_sym
+    C15_sym.prove(run)
     run.exhaustive = True
     run.extra["pool_sizes_depth_le_2"] = sizes
     run.rule = ("three universes (Pauli letters with one- and with two-component quantum numbers; boson letters incl. the symbol 'b^\\dagger + b' with "
